@@ -123,6 +123,18 @@ func init() {
 		}
 		return e, true
 	}
+	models["fmt.Sprintf"] = func(x *Exec, s *State, in ssa.Instruction, a []Value, c *ssa.CallCommon) (Value, bool) {
+		// a pure function of the format and of (up to four) boxed arguments
+		va := a[1]
+		x.declareFun("sprintf", []string{sStr, sInt, sInt, sInt, sInt, sInt, sInt, sInt, sInt, sInt}, sStr)
+		args := []string{a[0].S, va.F[2].S}
+		for i := 0; i < 4; i++ {
+			e := s.loadFrom(s.heap, s.elemPtr(va, intLit(int64(i))))
+			in := app("<", intLit(int64(i)), va.F[2].S)
+			args = append(args, ite(in, e.F[0].S, "0"), ite(in, e.F[1].S, "0"))
+		}
+		return Value{T: tString, S: app("sprintf", args...)}, true
+	}
 	models["bytes.Compare"] = func(x *Exec, s *State, in ssa.Instruction, a []Value, c *ssa.CallCommon) (Value, bool) {
 		sa, sb := x.bytesStr(s, s.heap, a[0]), x.bytesStr(s, s.heap, a[1])
 		return Value{T: tInt, S: ite(app("str.<", sa, sb), "(- 1)", ite(eq(sa, sb), "0", "1"))}, true
